@@ -111,7 +111,18 @@ def decode_witness(h, vals):
     if not w or not vals:
         return None
     inp = {}
-    for (name, ty), v in zip(w['fields'], vals):
+    vals = list(vals)
+    for fld in w['fields']:
+        name, ty = fld[0], fld[1]
+        if ty == 'bytes':
+            # an array [u8; K] is K separate any() calls in the playback
+            k = fld[2] if len(fld) > 2 else 1
+            chunk, vals = vals[:k], vals[k:]
+            inp[name] = [b for v in chunk for b in v]
+            continue
+        if not vals:
+            break
+        v, vals = vals[0], vals[1:]
         n = int.from_bytes(bytes(v), 'little', signed=False)
         if ty.startswith('i'):
             bits = int(ty[1:])
@@ -119,8 +130,6 @@ def decode_witness(h, vals):
                 n -= 1 << bits
         if ty == 'bool':
             inp[name] = bool(n)
-        elif ty == 'bytes':
-            inp[name] = v
         else:
             inp[name] = str(n) if abs(n) > 2 ** 53 else n
     inp.update(w.get('const', {}))
